@@ -126,7 +126,12 @@ def handle (line : String) : Json :=
     | some "accepts" =>
       let s := (j.getObjValAs? String "s").toOption.getD ""
       let r := Model.front Model.walkCfgTreeOnly true s.toList
+      let n := s.length + 2
+      let any1 := if s.length ≤ 60 then some (Model.acceptsAny (parseFuel n) s.toList) else none
+      let any2 := if s.length ≤ 60 then some (Model.acceptsAny (2 * parseFuel n) s.toList) else none
       Json.mkObj [("accepts", Json.bool (match r with | .ok _ => true | _ => false)),
+                  ("any", match any1 with | some b => Json.bool b | none => Json.null),
+                  ("any2", match any2 with | some b => Json.bool b | none => Json.null),
                   ("verdict", match r with | .ok _ => "ok" | .lexError => "lex-error" | .parseError => "parse-error" | .shapeError => "shape-error")]
     | some "convert" => handleConvert j
     | some "cli" => handleCli j
